@@ -105,15 +105,35 @@ func (g *gen) property(p string) bool {
 	case "C09":
 		g.genScale()
 	case "C10":
+		// acceptance is decided at every capacity boundary and for every input class of every symbology: the
+		// cross-cutting properties C10, C12, C13 run their own workloads plus the complete symbol workloads of the
+		// families they speak about (a change that C03 sees must not escape C12 because of a narrower workload)
 		g.genAccept()
+		g.genQR()
+		g.genDM()
+		g.genAztec()
+		g.genPDF()
+		g.genEAN(true)
 	case "C11":
 		g.genRender()
 	case "C12":
 		g.genECC()
+		g.genQR()
+		g.genDM()
+		g.genAztec()
+		g.genPDF()
+		g.stagePDFec()
 	case "C13":
 		g.genSmallest()
+		g.genQR()
+		g.genDM()
+		g.genAztec()
+		g.genPDF()
+		g.stageSizes()
 	case "C14":
 		g.genCheckSum()
+		g.stageEAN()
+		g.stageC39C93()
 	case "C15":
 		g.genMixed(g.n(400, 3000), true)
 	case "C16":
